@@ -760,15 +760,52 @@ def run(ctx: common.Ctx):
         oc = np.asarray(cls(gs, gt)(A(const)))
         ctx.expect(oc.shape == gt.nodal_shape and np.abs(oc - 2.5).max() <= 1e-12, f'{name}-constant',
                    f'{name} regridding does not reproduce a constant', inp)
-        if name == 'nearest' and ts[2] == 'equiangular_with_poles':
-          continue   # all longitudes coincide at the poles: the nearest node is not unique there
         oi = np.asarray(cls(gs, gs)(A(field)))
+        if name == 'nearest' and ts[2] == 'equiangular_with_poles':
+          # all longitudes coincide at the poles: over the reals the nearest node is not unique there, and the theorem
+          # `nearest_self_haversine` excludes pole rows.  Not skipped: checked on the real code (see `pole_grids` below)
+          ctx.expect(np.abs(oi - field).max() <= 1e-12, 'nearest-pole-row-ties',
+                     'nearest regridding between equal equiangular_with_poles grids is not the identity '
+                     '(the field varies along the pole row)', inp)
+          continue
         ctx.expect(np.abs(oi - field).max() <= 1e-12, f'{name}-identity',
                    f'{name} regridding between equal grids is not the identity', inp)
       if ts[2] != 'equiangular_with_poles':
         same = [int(v) for v in np.asarray(hi.NearestRegridder(gs, gs).indices)]
         ctx.expect(same == list(range(len(same))), 'nearest-self',
                    'nearest neighbour of a node of the same grid is not itself', inp)
+
+  # nearest-neighbour "identity between equal grids" on grids WITH pole rows (review C, C17 finding 2): outside the
+  # theorem (latitudes strictly inside the poles), so it is a test on the real code, on every run, with fields that vary
+  # along the pole rows; a failure is reported under the key `nearest-pole-row-ties`.  Measured on the unchanged tree:
+  # it HOLDS (520 grids, 1..64 longitudes x 2..33 latitudes x 5 offsets), because in float64 cos(fl(pi/2)) = 6.1e-17
+  # is not 0, so the haversine distance between two distinct pole nodes is positive while the self distance is 0.
+  pole_grids = [(10, 7, 'equiangular_with_poles', 0.05), (8, 5, 'equiangular_with_poles', 0.0),
+                (4, 3, 'equiangular_with_poles', 0.0), (5, 2, 'equiangular_with_poles', -0.3)]
+  if not ctx.quick:
+    pole_grids += [(int(rng.integers(1, 33)), int(rng.integers(2, 20)), 'equiangular_with_poles',
+                    float(rng.uniform(-3.0, 3.0))) for _ in range(12)]
+  pole_ok = 0
+  for tp in pole_grids:
+    gp = mkgrid(tp)
+    inp = dict(source=list(tp), target=list(tp))
+    ctx.case(('nearest-pole', tp), nontrivial=True, branch='nearest-pole-row')
+    with ctx.impl('probe-exception', inp):
+      reg = hi.NearestRegridder(gp, gp)
+      fieldp = rng.standard_normal(gp.nodal_shape)
+      fieldp[:, 0] = np.arange(1, gp.nodal_shape[0] + 1)          # distinct values along both pole rows
+      fieldp[:, -1] = -np.arange(1, gp.nodal_shape[0] + 1)
+      op = np.asarray(reg(A(fieldp)))
+      samep = [int(v) for v in np.asarray(reg.indices)]
+      ok = bool(np.abs(op - fieldp).max() == 0.0) and samep == list(range(len(samep)))
+      pole_ok += ok
+      ctx.expect(ok, 'nearest-pole-row-ties',
+                 'nearest regridding between two equal equiangular_with_poles grids is not the identity on a field '
+                 'varying along the pole row (pole nodes coincide on the sphere: ties)',
+                 dict(inp, indices=samep, pole_row_out=op[:, 0].tolist(), pole_row_in=fieldp[:, 0].tolist()))
+  ctx.notes.append(f'nearest identity on equal equiangular_with_poles grids (outside nearest_self_haversine: pole nodes '
+                   f'coincide on the sphere): holds on the real code for {pole_ok}/{len(pole_grids)} grids (float64: '
+                   f'cos(fl(pi/2)) != 0 separates the pole nodes); a failure would be reported as nearest-pole-row-ties')
 
   tick('probes horizontal')
   ctx.notes.append('section wall times (s): ' + repr(timing))
